@@ -1584,3 +1584,14 @@ pub mod verif_sched {
         }
     }
 }
+
+/// Verification hook (C18, `--cfg rustrtc_verif` only; add-only, read-only): `true` while some
+/// thread holds the probation mutex (a `try_lock` whose guard is dropped at once). Lets the
+/// harness's schedule executor OBSERVE mutual exclusion of the latch critical sections instead of
+/// assuming it.
+#[cfg(rustrtc_verif)]
+impl IceConn {
+    pub fn verif_probation_locked(&self) -> bool {
+        self.probation.try_lock().is_none()
+    }
+}
